@@ -490,6 +490,7 @@ func (s *Server) newClient(id string) error {
 	if s.cs[id] != nil {
 		return status.Errorf(codes.Internal, "cannot create new client with duplicate ID, %s", id)
 	}
+	verifPoint("server.newClient.beforeInsert")
 	s.cs[id] = &clientState{
 		// Set to the default set of parameters.
 		params: &clientParams{},
@@ -504,6 +505,7 @@ func (s *Server) newClient(id string) error {
 func (s *Server) deleteClient(id string) {
 	s.csMu.Lock()
 	defer s.csMu.Unlock()
+	verifPoint("server.deleteClient.beforeDelete")
 	delete(s.cs, id)
 }
 
@@ -647,6 +649,7 @@ func (s *Server) setClientParams(id string, p *clientParams) error {
 	if s.cs[id] == nil {
 		return fmt.Errorf("cannot find client %s, known clients: %v", id, s.cs)
 	}
+	verifPoint("server.setClientParams.beforeSet")
 	s.cs[id].params = p
 	return nil
 }
@@ -696,6 +699,7 @@ func (s *Server) storeClientElectionID(id string, elecID *spb.Uint128) bool {
 	if !ok {
 		return false
 	}
+	verifPoint("server.storeClientElectionID.beforeSet")
 	cs.lastElecID = elecID
 	return true
 }
